@@ -208,9 +208,9 @@ def known(c, backend, r):
 
 LEVEL_TEXT = ("Machine-checked Coq theorems, for every year with no bound, that the Python calendar helpers (translated from /repo on every run) "
               "and the Rust twins (hand model) equal the proleptic Gregorian calendar of Spec/Cal.v: leap years, days in year, ISO weekday, ISO long years, "
-              "day of year, quarter, week of month, and that the reference calendar is a bijection ordinal <-> valid date; plus an exhaustive-in-years "
+              "day of year, quarter, week of month, the broken-down time of every integer Unix timestamp at every offset (local_time, both backends), and that the reference calendar is a bijection ordinal <-> valid date; plus an exhaustive-in-years "
               "three-way correspondence (implementation both backends / model / CPython stdlib).")
 DESIGN_REF = "DESIGN.md section 4 C15, section 3.1"
 LEVEL_NOTE = ("Trusted: Coq kernel+VM, the Python->Gallina translator, the hand model of rust/src/helpers.rs and Spec/Cal.v as a model of CPython's datetime "
-              "(both validated by correspondence every run), extraction+driver (cross-checked with vm_compute). local_time is covered by correspondence and oracle; its theorem is in progress.")
+              "(both validated by correspondence every run), extraction+driver (cross-checked with vm_compute).")
 TECHNIQUE = "Coq proof (lia + finite reflection lifted by 400-year periodicity) over translated code; differential correspondence for hand models"
